@@ -4,6 +4,44 @@ use rand::{Rng, rngs::StdRng};
 
 use crate::{dsl::Program, eng::Action};
 
+/// Appends to `prog` one witness node per firewall (a Normal node reading just
+/// that firewall) and returns their 0-based ids in firewall order.
+pub fn add_witnesses(prog: &mut Program) -> Vec<usize> {
+    use crate::dsl::{Item, Kind, Node};
+    let fws: Vec<usize> = (0..prog.n()).filter(|&i| prog.kind(i) == Kind::Fw).collect();
+    let mut ws = Vec::new();
+    for f in fws {
+        prog.nodes.push(Node {
+            kind: Kind::Nm,
+            init: 0,
+            code: vec![Item { g: 0, gc: 0, mode: 0, deps: vec![f + 1], w: 1, c: 0 }],
+            post: 0,
+            panic_if: -1,
+        });
+        ws.push(prog.n() - 1);
+    }
+    ws
+}
+
+/// "Sweep" regime: after every commit the witnesses of all firewalls are
+/// queried first, in firewall order, so that every firewall is re-verified by
+/// a transitive-firewall repair of a user-level request before anything else
+/// runs in the epoch (the call sites of KF_TFC / KF_PBP are never reached).
+pub fn sweep(actions: Vec<Action>, witnesses: &[usize]) -> Vec<Action> {
+    let mut out = Vec::new();
+    for a in actions {
+        let is_commit = matches!(a, Action::Commit);
+        let is_restart = matches!(a, Action::Restart);
+        out.push(a);
+        if is_commit || is_restart {
+            for w in witnesses {
+                out.push(Action::Query { t: 0, n: w + 1 });
+            }
+        }
+    }
+    out
+}
+
 pub fn gen_history(r: &mut StdRng, prog: &Program, steps: usize, restarts: bool) -> Vec<Action> {
     let mut acts = vec![Action::Begin];
     for i in prog.inputs() {
